@@ -381,19 +381,21 @@ func (f *flow) Start(ctx context.Context) {
 						}
 						source := f.current.Element()
 
-						current := sequences[0]
 						effectiveFlows := make([]Snapshot, 0)
-
-						flowed := f.handleSequenceFlow(ctx, current, unconditional[0], a.actionTransformer, a.terminate)
-
-						if flowed {
-							effectiveFlows = append(effectiveFlows, Snapshot{sequenceFlow: current, flowId: f.Id()})
-						}
-
-						rest := sequences[1:]
 						flowHandlers := make([]func(ctx context.Context), 0)
-						for i, sequenceFlow := range rest {
-							flowId, flowHandler, flowed := f.handleAdditionalSequenceFlow(ctx, sequenceFlow, unconditional[i+1],
+
+						// the token itself continues along the first effective sequence flow,
+						// every further effective sequence flow is forked
+						continued := false
+						for i, sequenceFlow := range sequences {
+							if !continued {
+								if f.handleSequenceFlow(ctx, sequenceFlow, unconditional[i], a.actionTransformer, a.terminate) {
+									effectiveFlows = append(effectiveFlows, Snapshot{sequenceFlow: sequenceFlow, flowId: f.Id()})
+									continued = true
+								}
+								continue
+							}
+							flowId, flowHandler, flowed := f.handleAdditionalSequenceFlow(ctx, sequenceFlow, unconditional[i],
 								a.actionTransformer, a.terminate)
 							if flowed {
 								effectiveFlows = append(effectiveFlows, Snapshot{sequenceFlow: sequenceFlow, flowId: flowId})
